@@ -88,12 +88,15 @@ class MetaMC(type):
     def __init__(cls, name, handler):
         cls.__args__ = get_args(handler)
 
-    def codegen(cls):
+    def codegen(cls, argtype=None):
         if hasattr(cls._handler, "codegen"):
-            return cls._handler.codegen()
+            return cls._handler.codegen(argtype)
         else:
             from .dependent import CodeGen
 
+            if argtype is not None:
+                ok = subclasscheck(argtype, cls)
+                return CodeGen("True" if ok else "False")
             return CodeGen("isinstance({arg}, {this})", this=cls)
 
     def __type_order__(cls, other):
@@ -325,12 +328,13 @@ class Union:
     def __init__(self, *types):
         self.__args__ = self.types = types
 
-    def codegen(self):
+    def codegen(self, argtype=None):
         from .dependent import combine, generate_guarded_checking_code
 
         template = " or ".join("({})" for t in self.types)
         return combine(
-            template, [generate_guarded_checking_code(t) for t in self.types]
+            template,
+            [generate_guarded_checking_code(t, argtype) for t in self.types],
         )
 
     def __type_order__(self, other):
@@ -376,12 +380,13 @@ class Intersection:
     def __init__(self, *types):
         self.__args__ = self.types = types
 
-    def codegen(self):
+    def codegen(self, argtype=None):
         from .dependent import combine, generate_guarded_checking_code
 
         template = " and ".join("({})" for t in self.types)
         return combine(
-            template, [generate_guarded_checking_code(t) for t in self.types]
+            template,
+            [generate_guarded_checking_code(t, argtype) for t in self.types],
         )
 
     def __type_order__(self, other):
